@@ -408,13 +408,11 @@ def r03_3(ctx: Ctx) -> None:
             rexp = _expand_at(f, r.value, r)
             if norm(vexp) in norm(rexp):
                 same = True
-            joined = [c.args[0] for c in ast.walk(vexp) if isinstance(c, ast.Call) and attr_tail(c) == "joinpath" and c.args]
-            rargs = [rexp] + [c.args[0] for c in ast.walk(rexp) if isinstance(c, ast.Call) and attr_tail(c) in ("Path", "PurePath") and c.args]
-            if any(norm(j) == norm(a) for j in joined for a in rargs):
-                same = True
-        ctx.check(same, "R03.3", f, r, "sanitiser returns the validated path (same joined expression)",
-                  "the sanitiser validates one spelling of the member name and returns another (e.g. the './' marker is stripped only on the "
-                  "returned side): a name like './/abs/path' is validated as cwd/abs/path and handed back as /abs/path",
+            # NOT accepted: a path built from the same text that was joined to the base.  The validated value is the CANONICAL form; the raw
+            # spelling '../evil/sub/../../<cwd name>/f' canonicalises into the base but mkdir(parents=True) on it creates ../evil and ../evil/sub
+        ctx.check(same, "R03.3", f, r, "sanitiser returns the canonical path it validated (itself, or made relative to the base)",
+                  "the sanitiser validates the canonical form of the member path but returns another spelling of it (the raw name, or a differently stripped one): "
+                  "'.//abs/path' is handed back as /abs/path, and '../evil/sub/../../<cwd name>/f' - whose canonical form lies inside - makes mkdir(parents=True) create ../evil/sub outside",
                   construct=f"returned-vs-validated {norm(r.value)[:60]}")
     # fall-off-the-end would return None: every non-return exit must raise
     last_nodes = [p for p in cfg.exit.pred if not (p.kind == "stmt" and isinstance(p.ast, ast.Return))]
